@@ -82,6 +82,17 @@ def _scratch(name):
         las.well["WELL"].value = np.nan
         las.well["FLD"].unit = "x"
         las.well["FLD"].value = np.nan
+    if name == "zero-rows-typed":
+        las = lasio.LASFile()
+        las.append_curve("DEPT", np.array([], dtype=float), unit="m")
+        las.append_curve("LITH", np.array([], dtype="<U8"))
+        las.append_curve("CODE", np.array([], dtype=np.int64))
+        las.append_curve("FLAG", np.array([], dtype=bool))
+        return las
+    if name == "custom-sections":
+        las.sections["Tops"] = lasio.SectionItems([lasio.HeaderItem("TOPA", "m", 100.5, "top a"), lasio.HeaderItem("TOPB", "m", 200.5, "top b")])
+        las.sections["Notes"] = "free text section"
+        return las
     if name.startswith("dup-"):
         # n items sharing one mnemonic (session names AMP:1 .. AMP:n, suffixes of one, two and three digits)
         for k in range(int(name[4:])):
@@ -89,7 +100,7 @@ def _scratch(name):
     return las
 
 
-SCRATCH = ["default", "curves", "nan-header", "dup-9", "dup-10", "dup-11", "dup-99", "dup-100", "dup-101", "dup-130"]
+SCRATCH = ["default", "curves", "nan-header", "dup-9", "dup-10", "dup-11", "dup-99", "dup-100", "dup-101", "dup-130", "zero-rows-typed", "custom-sections"]
 
 
 def full_tag(las):
@@ -131,7 +142,7 @@ def interesting(las):
     return any(np.asarray(c.data).dtype.kind in "USO" for c in las.curves)
 
 
-MUTATIONS = ["header-value", "rename-curve", "data-inplace", "append-curve"]
+MUTATIONS = ["header-value", "rename-curve", "data-inplace", "append-curve", "custom-section"]
 
 
 def mutate(las, m):
@@ -148,6 +159,15 @@ def mutate(las, m):
         if not len(las.curves) or not len(las.curves[0].data) or np.asarray(las.curves[0].data).dtype.kind != "f":
             return False
         list.__getitem__(las.curves, 0).data[0] = 12345.678
+    elif m == "custom-section":
+        # a section other than the four standard ones that holds items (e.g. ~Tops, LAS 3.0 definition sections)
+        extra = [sec for name, sec in las.sections.items()
+                 if name not in ("Version", "Well", "Curves", "Parameter") and not isinstance(sec, str) and len(sec)]
+        if not extra:
+            return False
+        list.__getitem__(extra[0], 0).value = "MUTATED"
+        list.__getitem__(extra[0], 0).descr = "mutated"
+        extra[0].append(lasio.HeaderItem("ADDED", "", 1, "added"))
     elif m == "append-curve":
         n = len(las.curves[0].data) if len(las.curves) else 2
         las.append_curve("APPENDED", np.arange(n, dtype=float))
